@@ -25,11 +25,11 @@ CHECKS = {
          "Trusted: callback log recorded under the trace mutex; racing causes are only held to order-independent rules.", "5/C16"),
 
  "C09": ("fault_enumeration", "online/offline lifecycle monitor over Dialer and transport events: open-transport count at dial, CONNECT-first, back-off lower bounds, no dial after Disconnect; Disconnect/cancel steered into every loop phase",
-         "Seeded sequences of connection-ending causes (peer close, malformed packet, refused/absent CONNACK, cuts, dial-error runs, keep-alive silence, outages) x 6 back-off settings on the real ReconnectClient; Disconnect and context cancellation steered into each phase of the loop (parked Dialer, waiting CONNACK, back-off wait, connected).",
+         "Seeded sequences of connection-ending causes (peer close, malformed packet, refused CONNACK with and without the broker closing, absent CONNACK, cuts, dial-error runs incl. outages of 45-75 consecutive failures, keep-alive silence) x 6 back-off settings on the real ReconnectClient; Disconnect and context cancellation steered into each phase of the loop (parked Dialer, waiting CONNACK, back-off wait, connected).",
          "Trusted: monotonic clock for lower bounds (sound under load); absence of dials after Disconnect observed for 3x max back-off.", "5/C09"),
 
  "C01": ("fault_enumeration", "obligation ledger over the recorded trace of the real ReconnectClient against a fault-injecting broker model; sentinel quiescence / certified-stuck",
-         "Every single cut (4 kinds) at every request-packet ordinal of 10 canonical workloads x configurations, exhaustive cut pairs on short workloads (thorough), sampled pairs/triples, seeded random plans up to 6 faults incl. refused/absent CONNACK and dial failures, and steered submissions while the reconnect goroutine is inside the Dialer / a ConnectOption. Every accepted QoS>=1 publish, subscribe, unsubscribe must have an acknowledgement sent and consumed by quiescence.",
+         "Every single cut (4 kinds) at every request-packet ordinal of 10 canonical workloads x configurations x client kinds (library ReconnectClient; RetryClient driven through the Retryer contract by a hand-written loop in both Resubscribe/Retry orders), exhaustive cut pairs on short workloads (thorough), sampled pairs/triples, seeded random plans up to 6 faults incl. refused/absent CONNACK and dial failures, silently dropped acknowledgements with a ResponseTimeout, and steered submissions while the reconnect goroutine is inside the Dialer / a ConnectOption and from inside the ConnState(Active) / OnError callbacks. Every accepted QoS>=1 publish, subscribe, unsubscribe must have an acknowledgement sent and consumed by quiescence; certified-stuck and live-lock (25 healthy connections without progress) are violations.",
          "Trusted: broker model as specification of the peer; fault model of DESIGN.md 2.4; quiescence argument (two sentinels, FIFO task goroutine). Eventually is restated as quiescence after faults stop / certified stuck.", "5/C01"),
  "C02": ("fault_enumeration", "broker delivery-log count per message tag (exactly-once) over exhaustive single and pair cut sweeps",
          "QoS 2 workloads with 1-3 messages against a session-keeping broker model with both receiver methods; all single cuts and all pairs of cuts of 4 kinds over every CONNECT/PUBLISH/PUBREL ordinal, random plans beyond; delivery count must be exactly 1 and nothing may be transmitted for a message after its PUBCOMP was consumed and the client moved on.",
@@ -38,13 +38,13 @@ CHECKS = {
          "Single-submitter workloads; all single cuts, exhaustive pairs on short workloads, sampled pairs/triples, random plans; R1/R2/R3 of DESIGN.md checked on every connection of every run.",
          "Trusted: tags identify messages; default queued mode.", "5/C03"),
  "C08": ("fault_enumeration", "broker subscription table at quiescence vs fold of application calls; explained-SUBSCRIBE rule per connection",
-         "Subscribe/Unsubscribe histories with repeated filters, changed QoS, duplicates inside a call, absent filters, calls before Connect and during outages; session kept/lost x AlwaysResubscribe on/off; all single cuts, sampled pairs/triples, random plans.",
+         "Canonical and seeded random Subscribe/Unsubscribe histories with repeated filters, changed QoS, duplicates inside a call, absent filters, calls before Connect and during outages; session kept/lost x AlwaysResubscribe on/off x three client kinds; all single cuts, sampled pairs/triples, random plans.",
          "Trusted: broker model grants requested QoS; fold semantics = MQTT subscription replacement.", "5/C08"),
  "C12": ("fault_enumeration", "per-message attempt-history monitor (id/content stability, DUP 0 then 1, PUBREL rules) over all write attempts incl. locally failed ones",
          "All PUBLISH/PUBREL attempts of every message across all connections in single/pair/random cut sweeps, incl. caller-set ids and preset Dup/retain; also the ErrorWithRetry handle replayed on a fresh client (C19 API cases).",
          "Trusted: DUP defined on attempts; failed local writes are recorded by the transport.", "5/C12"),
  "C17": ("fault_enumeration", "inbound hand-over monitor: consumed inbound PUBLISH vs handler invocations per connection, with handler replacement history",
-         "Broker model pushes tagged messages right behind every CONNACK, mid-connection and before cuts while Handle is called before Connect, after Connect, replaced or set to nil; single cuts, sampled pairs, random plans; slowed Active callback.",
+         "Broker model pushes tagged messages right behind every CONNACK, mid-connection and before cuts while Handle is called before Connect, after Connect, replaced or set to nil, between an inbound QoS 2 PUBLISH and its withheld PUBREL, and continuously from a storm goroutine (stats lock kept read-held) across reconnects; single cuts, sampled pairs, random plans, repetitions; slowed Active callback.",
          "Trusted: consumed-offset bookkeeping of the transport; the last packet consumed on a connection is not judged.", "5/C17"),
 
  "C04": ("exploration", "reference receiver automaton over a single-timeline trace of a real BaseClient (exhaustive bounded + seeded inbound sequences)",
@@ -54,7 +54,7 @@ CHECKS = {
          "Every packet the client writes in the generated workloads is decoded by an independent strict MQTT 3.1.1 decoder and compared field by field with the request; the length codec is compared with an independent encoder for every n in 0..268435455 (thorough) or all boundaries +-300 and 2^20 samples (quick).",
          "Trusted: mqttref (written from the OASIS text). Domain: requests MQTT 3.1.1 can express.", "5/C05"),
  "C06": ("exploration", "hostile byte streams fed to a real BaseClient in journalled child processes; crash attribution, read-size monitor, close-before-next-read oracle",
-         "Structural enumeration of malformed packets (types x flags x short bodies, over-long/endless length fields, truncations, PUBLISH specials) and seeded random/mutated streams, each between a well-formed prefix and a canary; the oracle is logical (library Close before the reader parks on exhausted input; Done/Err/Closed consistent; allocation bound from Read sizes).",
+         "Structural enumeration of malformed packets (types x flags x short bodies, over-long/endless length fields, truncations, PUBLISH specials) and seeded random/mutated streams, each between a well-formed prefix and a canary, and also in place of the CONNACK while Connect waits; random bodies handed to every parser; the oracle is logical (library Close before the reader parks on exhausted input; Done/Err/Closed consistent; allocation bound from Read sizes).",
          "Trusted: mqttref classification of which blobs are in the property's list; leniencies outside the list only need to be crash-free.", "5/C06"),
  "C07": ("exploration", "scripted manual-mode broker with foreign-ack injection and Ping barriers; call/return vs ack-send order on one timeline",
          "Seeded scripts with 1-24 concurrent callers; foreign/unsolicited/duplicated acknowledgements first (proved processed by a Ping barrier), then own acknowledgements in a seeded permutation; a call may return only after the send event of its own acknowledgement; SUBACK vectors and wrong-length vectors checked.",
